@@ -273,6 +273,10 @@ MUTATIONS += [
     dict(id="C02-copy-coalesce-across-packs", prop="C02", file=PK, old="        if self.pack_id == other.pack_id && self.locations.can_coalesce(&other.locations) {", new="        if self.locations.can_coalesce(&other.locations) {"),
 ]
 
+MUTATIONS += [
+    dict(id="C16-open-hot-alone-accepted", prop="C16", file="crates/core/src/repository.rs", old="        match (config.is_hot == Some(true), self.be_hot.is_some()) {\n            (true, false) => {", new="        match (config.is_hot == Some(true), self.be_hot.is_some()) {\n            (true, false) if config.is_hot.is_none() => {"),
+]
+
 HARMLESS = [
     dict(id="H-C05-trees-symlink-continue", prop="C05", file=CK, old="        for node in tree.nodes {\n            match node.node_type {", new="        for node in tree.nodes {\n            if node.node_type == NodeType::Symlink {\n                continue;\n            }\n            match node.node_type {"),
 ]
